@@ -1,14 +1,16 @@
-(* Model of the data logger with the PROPOSED repair of the hand-off (fixes/C17_stale_write_finished.diff):
+(* Model of the CURRENT data logger hand-off (pyrtma/data_logger/data_collection.py since commit 510a13f):
 
      __init__ : self.write_finished.set()                         (the writer is idle: nothing is staged)
      update() : if write: if not self.write_finished.is_set(): warning "Unable to write fast enough."
                           else: next_write = ...; trigger_write()
-     stop()   : while not self.write_finished.wait(0.250): pass   (unconditionally; the two clear() calls are removed)
+     stop()   : while not self.write_finished.wait(0.250): pass   (unconditionally; no clear() of either event)
 
-   write_finished thereby becomes the single token "the writer is at the head of its loop and owns nothing":
-   it is cleared by trigger_write before write_to_disk is set and set by the writer as the LAST operation of a
-   round, after write_to_disk.clear().  Everything else (DataSet, formatters, the writer loop, trigger_write) is the
-   code as it is, so this file reuses Model/Logger.v and only redefines the three recorder steps that change.
+   write_finished is the single token "the writer is at the head of its loop and owns nothing": cleared by
+   trigger_write before write_to_disk is set, set by the writer as the LAST operation of a round, after
+   write_to_disk.clear().  Everything else (DataSet, formatters, the writer loop, trigger_write) is shared with
+   Model/Logger.v, so this file only redefines the three recorder steps that differ from the code before 510a13f
+   (whose recorder step `rstep` is kept in Model/Logger.v for the historical record Props/C17Before.v).
+   The shape assumed here is located in the source on every run by vlib/gen_logger.py (fail closed).
    Executable, proof-free. *)
 From Coq Require Import ZArith List Bool.
 From Logr Require Import Gen.LoggerConsts Model.Formats Model.Logger.
